@@ -145,7 +145,9 @@ def c16(run):
 
 
 def c07(run):
-    raise MachineryError("not built yet")
+    run.scen("MC_MapFault", {}, small_heap=True, max_crashes=200)
+    # a saved game yields the same fields as a map holding the same embedded portion (specification: MapFile!SavedGame)
+    run.scen("MC_Map", {"Tier": '"%s"' % run.tier}, own=by_prefix("save_equiv", "scenario"), name="MC_Map (saved game = map)")
 
 
 def c08(run):
@@ -161,7 +163,7 @@ def c10(run):
 
 
 def c11(run):
-    raise MachineryError("not built yet")
+    run.scen("MC_ImageFault", {}, small_heap=True, max_crashes=300)
 
 
 # ======================================================================================================
